@@ -127,19 +127,20 @@ type breqCfg struct {
 }
 
 type lcase struct {
-	Fam   string  `json:"family"`
-	Entry string  `json:"entry"`
-	TSNil bool    `json:"truststore_nil,omitempty"`
-	OCI   docCfg  `json:"oci"`
-	Blob  docCfg  `json:"blob"`
-	PM    pmCfg   `json:"pm"`
-	Impl  implCfg `json:"impl"`
-	Sc    scCfg   `json:"sc"`
-	N     nreqCfg `json:"n"`
-	B     breqCfg `json:"b"`
-	UM    int     `json:"um,omitempty"`
-	Obs   string  `json:"obs,omitempty"`
-	Panic string  `json:"panic,omitempty"`
+	Fam   string   `json:"family"`
+	Entry string   `json:"entry"`
+	TSNil bool     `json:"truststore_nil,omitempty"`
+	OCI   docCfg   `json:"oci"`
+	Blob  docCfg   `json:"blob"`
+	PM    pmCfg    `json:"pm"`
+	Impl  implCfg  `json:"impl"`
+	Sc    scCfg    `json:"sc"`
+	N     nreqCfg  `json:"n"`
+	B     breqCfg  `json:"b"`
+	UM    int      `json:"um,omitempty"`
+	Obs   string   `json:"obs,omitempty"`
+	Panic string   `json:"panic,omitempty"`
+	Frame []string `json:"mutated_caller_objects,omitempty"` // frame check: caller-owned objects the library changed
 }
 
 // decodeResp is what plugin.CLIPlugin.VerifySignature makes of a plugin's stdout.
@@ -364,12 +365,18 @@ type libVerifier interface {
 type env struct {
 	shared      libVerifier // history groups: the one verifier instance all steps use
 	sharedParts *parts
-	now         time.Time
-	good        Chain
-	other       Chain
-	desc        ocispec.Descriptor // what the payloads describe (also the digest of blobContent)
-	ref         string
-	envCache    map[string][]byte
+	// caller-owned objects handed to consecutive steps of a history as the SAME object
+	shareObjs  bool
+	histCount  int
+	sharedMeta map[string]string
+	sharedCfg  map[string]string
+	sharedAnn  map[string]string
+	now        time.Time
+	good       Chain
+	other      Chain
+	desc       ocispec.Descriptor // what the payloads describe (also the digest of blobContent)
+	ref        string
+	envCache   map[string][]byte
 }
 
 func newEnv() *env {
@@ -723,6 +730,93 @@ type parts struct {
 	rev   *RevScript
 	mgr   *MockManager
 	store *MockStore
+	oci   *trustpolicy.OCIDocument
+	blob  *trustpolicy.BlobDocument
+}
+
+// ---------- frame check: caller-owned objects must come back as they went in ----------
+
+type frameItem struct {
+	what string
+	get  func() string
+	snap string
+}
+type frame struct{ items []frameItem }
+
+func deepText(v any) string {
+	b, err := json.Marshal(v)
+	if err != nil {
+		return fmt.Sprintf("%#v", v)
+	}
+	return string(b)
+}
+
+// watch snapshots v (a map, slice or pointer the library only has to read) deeply.
+func (f *frame) watch(what string, v any) {
+	f.watchFn(what, func() string { return deepText(v) })
+}
+func (f *frame) watchFn(what string, get func() string) {
+	f.items = append(f.items, frameItem{what, get, get()})
+}
+func (f *frame) changed() []string {
+	var out []string
+	for _, it := range f.items {
+		if now := it.get(); now != it.snap {
+			out = append(out, fmt.Sprintf("%s: %s -> %s", it.what, Short(it.snap, 200), Short(now, 200)))
+		}
+	}
+	return out
+}
+
+// watchParts: the documents, the trust store's certificate slices, the validator's
+// result slice and the plugin's response object belong to the caller / the injected component.
+func (f *frame) watchParts(pt *parts) {
+	if pt == nil {
+		return
+	}
+	if pt.oci != nil {
+		f.watch("OCI trust policy document", pt.oci)
+	}
+	if pt.blob != nil {
+		f.watch("blob trust policy document", pt.blob)
+	}
+	if pt.store != nil {
+		f.watchFn("certificate slices of the trust store", func() string {
+			var keys []string
+			for k, cs := range pt.store.Certs {
+				t := fmt.Sprintf("%s:%s[", k.Type, k.Name)
+				for _, c := range cs {
+					t += fmt.Sprintf("%p ", c)
+				}
+				keys = append(keys, t+"]")
+			}
+			sort.Strings(keys)
+			return strings.Join(keys, ";")
+		})
+	}
+	if pt.rev != nil {
+		f.watchFn("result slice of the revocation validator", func() string {
+			t := ""
+			for _, r := range pt.rev.Results {
+				if r == nil {
+					t += "nil "
+				} else {
+					t += fmt.Sprintf("%p:%d ", r, r.Result)
+				}
+			}
+			return t
+		})
+	}
+	if pt.mgr != nil {
+		for name, p := range pt.mgr.Plugins {
+			if p.Resp != nil {
+				f.watch("verify-signature response of plugin "+name, p.Resp)
+			}
+			if p.Meta != nil {
+				f.watch("metadata of plugin "+name, p.Meta)
+			}
+		}
+	}
 }
 
 func (e *env) scriptRev(rs *RevScript, sc scCfg) {
@@ -849,6 +943,8 @@ func (e *env) build(c *lcase, sc scCfg) (v libVerifier, pt *parts, err error) {
 			st, id = nil, nil
 		}
 		opts.OCITrustPolicy = OCIPolicy(c.OCI.Level, ovMap(c.OCI.Ov), st, id, "")
+		// more than one scope, not in sorted order (an in-place normalisation of the caller's document shows)
+		opts.OCITrustPolicy.TrustPolicies[0].RegistryScopes = []string{TestScope, "a.example/first", "reg.example/b"}
 	}
 	if c.Blob.Kind != 0 {
 		st, id := stores, identities
@@ -861,7 +957,7 @@ func (e *env) build(c *lcase, sc scCfg) (v libVerifier, pt *parts, err error) {
 			TrustStores:           st, TrustedIdentities: id, GlobalPolicy: c.Blob.Global && c.Blob.Kind >= 2,
 		}}}
 	}
-	pt = &parts{}
+	pt = &parts{oci: opts.OCITrustPolicy, blob: opts.BlobTrustPolicy}
 	pt.rev, _ = NewRevScript(nil, nil)
 	e.scriptRev(pt.rev, sc)
 	opts.RevocationCodeSigningValidator = pt.rev.Validator()
@@ -928,8 +1024,11 @@ func blobPolicyName(d docCfg) string {
 	return "bp"
 }
 
-func userMeta(s scCfg) map[string]string {
+func (e *env) userMeta(s scCfg) map[string]string {
 	if s.MetaReq {
+		if e.shareObjs {
+			return e.sharedMeta
+		}
 		return map[string]string{"k": "v"}
 	}
 	if s.Variant&2 != 0 {
@@ -938,7 +1037,10 @@ func userMeta(s scCfg) map[string]string {
 	return nil
 }
 
-func pluginConfig(s scCfg) map[string]string {
+func (e *env) pluginConfig(s scCfg) map[string]string {
+	if e.shareObjs {
+		return e.sharedCfg
+	}
 	if s.Variant&16 != 0 {
 		return map[string]string{}
 	}
@@ -969,6 +1071,8 @@ func (e *env) execCase(c *lcase) (term string) {
 		}
 		return CApp("ORet", "false", "None", CList([]string{outcomeTerm(o, nil)}), "None")
 	}
+	fr := &frame{}
+	defer func() { c.Frame = fr.changed() }()
 	lib := c.Entry == "Verify" || c.Entry == "VerifyBlob" || c.Entry == "SkipVerify" || c.Impl.Kind == 1
 	sc := c.Sc
 	if c.Entry == "NVerify" {
@@ -989,24 +1093,46 @@ func (e *env) execCase(c *lcase) (term string) {
 	if lib && e.shared != nil {
 		v = e.shared
 		e.rescript(c, sc)
+		fr.watchParts(e.sharedParts)
 	} else if lib {
 		var err error
-		v, _, err = e.build(c, sc)
+		var pt *parts
+		v, pt, err = e.build(c, sc)
 		if err != nil {
 			return "OConstruct"
 		}
+		fr.watchParts(pt)
 	}
+	// the caller-owned request objects
+	um, pc := e.userMeta(sc), e.pluginConfig(sc)
+	var sig []byte
+	if c.Entry != "NVerify" && c.Entry != "SkipVerify" {
+		sig = e.envelope(sc)
+		if sig != nil {
+			sig = append(make([]byte, 0, len(sig)+64), sig...) // spare capacity: an append by the library would show in the caller's array
+			spare := sig[:cap(sig)]
+			fr.watch("signature bytes (including spare capacity)", spare)
+		}
+	}
+	fr.watch("UserMetadata map", um)
+	fr.watch("PluginConfig map", pc)
 	switch c.Entry {
 	case "Verify":
 		d := e.desc
+		d.Annotations = map[string]string{"caller": "owned", "k": "v"}
+		if e.shareObjs {
+			d.Annotations = e.sharedAnn
+		}
+		d.URLs = []string{"https://b.example", "https://a.example"}
 		if !sc.DescMatch {
 			d.Size++
 		}
-		o, err := v.Verify(ctx, d, e.envelope(sc), notation.VerifierVerifyOptions{ArtifactReference: e.ociRef(c.OCI), SignatureMediaType: sc.Format, UserMetadata: userMeta(sc), PluginConfig: pluginConfig(sc)})
+		fr.watch("descriptor handed to Verify (annotations, urls)", &d)
+		o, err := v.Verify(ctx, d, sig, notation.VerifierVerifyOptions{ArtifactReference: e.ociRef(c.OCI), SignatureMediaType: sc.Format, UserMetadata: um, PluginConfig: pc})
 		return retTerm(false, "None", []*notation.VerificationOutcome{o}, o != nil, err)
 	case "VerifyBlob":
 		gen := e.descGen(sc)
-		o, err := v.VerifyBlob(ctx, gen, e.envelope(sc), notation.BlobVerifierVerifyOptions{SignatureMediaType: sc.Format, UserMetadata: userMeta(sc), TrustPolicyName: blobPolicyName(c.Blob), PluginConfig: pluginConfig(sc)})
+		o, err := v.VerifyBlob(ctx, gen, sig, notation.BlobVerifierVerifyOptions{SignatureMediaType: sc.Format, UserMetadata: um, TrustPolicyName: blobPolicyName(c.Blob), PluginConfig: pc})
 		return retTerm(false, "None", []*notation.VerificationOutcome{o}, o != nil, err)
 	case "SkipVerify":
 		skip, lvl, err := v.SkipVerify(ctx, notation.VerifierVerifyOptions{ArtifactReference: e.ociRef(c.OCI)})
@@ -1040,7 +1166,9 @@ func (e *env) execCase(c *lcase) (term string) {
 				repo.formats[md.Digest] = it.Format
 			}
 		}
-		vo := notation.VerifyOptions{ArtifactReference: ref, MaxSignatureAttempts: c.N.Max, UserMetadata: userMeta(sc)}
+		vo := notation.VerifyOptions{ArtifactReference: ref, MaxSignatureAttempts: c.N.Max, UserMetadata: um, PluginConfig: pc}
+		fr.watch("signature manifests listed by the repository", repo.list)
+		fr.watch("signature blobs served by the repository", repo.blobs)
 		var d ocispec.Descriptor
 		var outs []*notation.VerificationOutcome
 		var err error
@@ -1073,14 +1201,14 @@ func (e *env) execCase(c *lcase) (term string) {
 				rd = failingReader{}
 			}
 		}
-		o := notation.VerifyBlobOptions{BlobVerifierVerifyOptions: notation.BlobVerifierVerifyOptions{SignatureMediaType: sc.Format, UserMetadata: userMeta(sc), TrustPolicyName: blobPolicyName(c.Blob)}}
+		o := notation.VerifyBlobOptions{BlobVerifierVerifyOptions: notation.BlobVerifierVerifyOptions{SignatureMediaType: sc.Format, UserMetadata: um, TrustPolicyName: blobPolicyName(c.Blob), PluginConfig: pc}}
 		if c.B.CTypeBad {
 			o.ContentMediaType = "not a / media type;;"
 		}
 		if c.B.STypeBad {
 			o.SignatureMediaType = "application/unknown"
 		}
-		d, out, err := notation.VerifyBlob(ctx, bv, rd, e.envelope(sc), o)
+		d, out, err := notation.VerifyBlob(ctx, bv, rd, sig, o)
 		t := retTerm(descSet(d), "None", []*notation.VerificationOutcome{out}, out != nil, err)
 		if out == nil {
 			// the outcome is dropped on failure: only the coarse class of the error is observable
@@ -1151,9 +1279,15 @@ func run(a *Args) error {
 		}
 		obs := e.execCase(c)
 		c.Obs = obs
+		if len(c.Frame) > 0 {
+			w.ImplViolation(my, "library mutated caller-owned "+strings.Join(c.Frame, " | "), c, "")
+			w.Count("frame_check", "mutation")
+		} else {
+			w.Count("frame_check", "unchanged")
+		}
 		term := CApp("mk_case", CN(my), inputTerm(c), obs)
 		cc := *c
-		cc.Obs, cc.Panic = "", ""
+		cc.Obs, cc.Panic, cc.Frame = "", "", nil
 		kb, _ := json.Marshal(cc)
 		w.Add(my, term, c, string(kb), nontrivial(c))
 		w.Count("family", c.Fam)
@@ -1176,6 +1310,9 @@ func run(a *Args) error {
 			panic(fmt.Sprintf("c12: history base refused: %v", err))
 		}
 		e.shared, e.sharedParts = v, pt
+		e.histCount++
+		e.shareObjs = e.histCount%2 == 1
+		e.sharedMeta, e.sharedCfg, e.sharedAnn = map[string]string{"k": "v"}, map[string]string{"pc": "1", "a": "b"}, map[string]string{"caller": "owned", "k": "v"}
 		for _, st := range steps {
 			c := base
 			c.N.Items = nil
@@ -1183,7 +1320,7 @@ func run(a *Args) error {
 			normalize(&c)
 			emitMode(&c, true)
 		}
-		e.shared, e.sharedParts = nil, nil
+		e.shared, e.sharedParts, e.shareObjs = nil, nil, false
 	}
 
 	// corpus first
